@@ -1297,6 +1297,10 @@ def _cached_partial(f: tp.Callable[..., tp.Any], *cached_args):
       variables = flat_state.leaves
       # clone but keep the same variable references
       node_cache = unflatten(graphdef, flat_state, index_ref=index_ref)
+      if node_cache in cache:
+        # the same graph node appears more than once in `cached_args`,
+        # keep the cache entry created for its first occurrence.
+        return node_cache
       cached_new_ref_index = RefMap()
       _fp = fingerprint(
         node_cache,
